@@ -11,16 +11,18 @@ EXPLANATION = (
     "R08.1 ordered box: every returned 4-tuple has low components provably <= high components (min/max over the same "
     "collection, identical expressions, lo - d / hi + d with one d, or a callee summarised as returning an ordered pair). "
     "R08.2 stroke growth: the box is (min - d, min - d, max + d, max + d) with d = half the implicit stroke width when "
-    "transformed, half the plain one otherwise, and d = 0 unless with_stroke is set, a width exists and a stroke is painted. "
-    "R08.3 union: containers take min of mins / max of maxs position-wise over the boxes of their flattened rendered "
-    "descendants and skip empty boxes; Group and Use are each held to the same obligations. R08.4 Bezier extrema: the quadratic root per axis is "
-    "(p0 - p1)/(p0 - 2 p1 + p2), kept iff 0 < t < 1, the candidate list contains both end points and the curve point at the "
-    "root; for the cubic, denom/tau/delta and both roots are checked against the derivative A t^2 + B t + C through the "
-    "identities A = -denom, B = 2 tau, delta = tau^2 - A C, and the near-linear fallback against -C/B. "
-    "R08.5 arc candidates: the arc box enumerates the ellipse's axis extrema as angle_inv + k*quarter-turn filtered by the sweep "
-    "interval; since the start angle lies in (-pi, pi], |sweep| <= 2 pi and angle_inv in (-pi/2, pi/2), k must cover at least "
-    "[-2, 4] or an extremum inside the sweep is never tested (the box then excludes part of the arc). "
-    "Not decided: "
+    "transformed, half the plain one otherwise, and d = 0 unless with_stroke is set, a width exists and a stroke is "
+    "painted. R08.3 union: containers take min of mins / max of maxs position-wise over the boxes of their flattened "
+    "rendered descendants and skip empty boxes; Group and Use are each held to the same obligations. R08.4 Bezier extrema: "
+    "the quadratic root per axis is (p0 - p1)/(p0 - 2 p1 + p2), kept iff 0 < t < 1, the candidate list contains both end "
+    "points and the curve point at the root; for the cubic, denom/tau/delta and both roots are checked against the "
+    "derivative A t^2 + B t + C through the identities A = -denom, B = 2 tau, delta = tau^2 - A C, and the near-linear "
+    "fallback against -C/B. R08.5 arc candidates: the arc box enumerates the ellipse's axis extrema as angle_inv + "
+    "k*quarter-turn filtered by the sweep interval; since the start angle lies in (-pi, pi], |sweep| <= 2 pi and angle_inv "
+    "in (-pi/2, pi/2), k must cover at least [-2, 4] or an extremum inside the sweep is never tested (the box then excludes"
+    " part of the arc). The per-axis candidate rule is structural: a candidate is kept under 0 <= t <= 1 (any spelling), "
+    "appends the curve point's matching coordinate, and that list feeds min/max of that axis. The end-point-only shortcut "
+    "of Arc.bbox may be taken only when the extent is zero (a full turn also has coincident end points). Not decided: "
     "containment and tightness for arcs (candidate angles are value dependent) and cubics near the 1e-8 threshold."
 )
 TECHNIQUE = (
@@ -537,6 +539,22 @@ def cubic(ctx):
     ctx.ob("R08.4", "CubicBezier.bbox[axes]", ok, "", bb.lineno, "x extent from coordinate 0, y extent from coordinate 1, in (xmin, ymin, xmax, ymax) order")
 
 
+def _sweep_zero_only(t):
+    """the test holds only when the arc's extent is zero: `self.sweep == 0` / `self.delta == 0` / `not self.sweep`, possibly
+    conjoined with anything"""
+    if isinstance(t, ast.BoolOp) and isinstance(t.op, ast.And):
+        return any(_sweep_zero_only(v) for v in t.values)
+    if isinstance(t, ast.BoolOp) and isinstance(t.op, ast.Or):
+        return all(_sweep_zero_only(v) for v in t.values)
+    if isinstance(t, ast.Compare) and len(t.ops) == 1 and isinstance(t.ops[0], ast.Eq):
+        sides = [t.left, t.comparators[0]]
+        ext = any(attr_chain(x) in (["self", "sweep"], ["self", "delta"]) or (isinstance(x, ast.Call) and call_name(x) == "abs" and x.args and attr_chain(x.args[0]) in (["self", "sweep"], ["self", "delta"])) for x in sides)
+        return ext and any(isinstance(x, ast.Constant) and x.value == 0 and not isinstance(x.value, bool) for x in sides)
+    if isinstance(t, ast.UnaryOp) and isinstance(t.op, ast.Not):
+        return attr_chain(t.operand) in (["self", "sweep"], ["self", "delta"])
+    return False
+
+
 def arc_candidates(ctx):
     """Arc.bbox tries the extremum angles ang + k x half-turn.  With ang in [-90, 90] degrees (an arctangent, 0 or a quarter
     turn), the start angle theta in [0, 360] (as_positive_degrees) and the extent delta in [-360, 360] (one SVG arc), every
@@ -568,10 +586,72 @@ def arc_candidates(ctx):
         raise AnalysisError("R08.5", "Arc.bbox: candidate loop is not range(lo, hi): %s" % detail)
     ctx.ob("R08.5", "Arc.bbox[multiples cover the angular range]", ok, detail, loops[0].lineno,
            "an extremum that only the missing multiple reaches is not a candidate: the box then stops at an end point and no longer contains the arc")
-    # both axes are tested with the range 0..1 inclusive and append the curve point on the matching axis
-    src = ast.unparse(loops[0]).replace(" ", "")
-    ok = "if0<=tx<=1:xtrema.append(self.point(tx).x)" in src.replace("\n", "") and "if0<=ty<=1:ytrema.append(self.point(ty).y)" in src.replace("\n", "")
-    ctx.ob("R08.5", "Arc.bbox[candidates kept iff on the arc, per axis]", ok, "", loops[0].lineno, "x candidates feed the x extent, y candidates the y extent, only for parameters on the arc")
+    # candidates kept iff on the arc, per axis: `if 0 <= t <= 1: L.append(self.point(t).<axis>)`, and L feeds that axis of the box
+    def unit_range(t):
+        """the name T when the test says 0 <= T <= 1 (either spelling, strict or not: the end points are candidates anyway)"""
+        def bound(c):
+            if isinstance(c, ast.Compare) and len(c.ops) == 1 and isinstance(c.left, (ast.Name, ast.Constant)) and isinstance(c.comparators[0], (ast.Name, ast.Constant)):
+                l, r, op = c.left, c.comparators[0], c.ops[0]
+                if isinstance(op, (ast.Gt, ast.GtE)):
+                    l, r, op = r, l, ast.LtE()
+                if isinstance(op, (ast.Lt, ast.LtE)):
+                    if isinstance(l, ast.Constant) and l.value == 0 and isinstance(r, ast.Name):
+                        return (r.id, "lo")
+                    if isinstance(r, ast.Constant) and r.value == 1 and isinstance(l, ast.Name):
+                        return (l.id, "hi")
+            return None
+        if isinstance(t, ast.Compare) and len(t.ops) == 2 and all(isinstance(o, (ast.Lt, ast.LtE)) for o in t.ops) and isinstance(t.left, ast.Constant) and t.left.value == 0 \
+                and isinstance(t.comparators[0], ast.Name) and isinstance(t.comparators[1], ast.Constant) and t.comparators[1].value == 1:
+            return t.comparators[0].id
+        if isinstance(t, ast.Compare) and len(t.ops) == 2 and all(isinstance(o, (ast.Gt, ast.GtE)) for o in t.ops) and isinstance(t.left, ast.Constant) and t.left.value == 1 \
+                and isinstance(t.comparators[0], ast.Name) and isinstance(t.comparators[1], ast.Constant) and t.comparators[1].value == 0:
+            return t.comparators[0].id
+        if isinstance(t, ast.BoolOp) and isinstance(t.op, ast.And) and len(t.values) == 2:
+            b = [bound(v) for v in t.values]
+            if all(b) and b[0][0] == b[1][0] and {b[0][1], b[1][1]} == {"lo", "hi"}:
+                return b[0][0]
+        return None
+
+    feeds = {}  # list name -> set of axes appended
+    bad = []
+    n_if = 0
+    for node in ast.walk(loops[0]):
+        if not isinstance(node, ast.If):
+            continue
+        tv = unit_range(node.test)
+        apps = [c for st in node.body for c in ast.walk(st) if isinstance(c, ast.Call) and isinstance(c.func, ast.Attribute) and c.func.attr == "append" and isinstance(c.func.value, ast.Name)]
+        if not apps:
+            continue
+        n_if += 1
+        if tv is None:
+            bad.append("candidate kept under `%s` (line %d), not under 0 <= t <= 1" % (ast.unparse(node.test)[:40], node.lineno))
+            continue
+        for c in apps:
+            a0 = c.args[0] if c.args else None
+            if isinstance(a0, ast.Attribute) and a0.attr in ("x", "y") and isinstance(a0.value, ast.Call) and attr_chain(a0.value.func) in (["self", "point"], ["self", "point_at_t"]) \
+                    and len(a0.value.args) == 1 and isinstance(a0.value.args[0], ast.Name) and a0.value.args[0].id == tv:
+                feeds.setdefault(c.func.value.id, set()).add(a0.attr)
+            else:
+                bad.append("appends %s under the test of %s (line %d)" % (ast.unparse(a0)[:40] if a0 is not None else "nothing", tv, c.lineno))
+    rets = [s_ for s_ in fn.body if isinstance(s_, ast.Return) and isinstance(s_.value, ast.Tuple) and len(s_.value.elts) == 4]
+    ctx.need(len(rets) == 1, "R08.5", "Arc.bbox: final four-tuple return not found")
+    want_axes = ["x", "y", "x", "y"]
+    want_fn = ["min", "min", "max", "max"]
+    for e, ax, f in zip(rets[0].value.elts, want_axes, want_fn):
+        if isinstance(e, ast.Call) and call_name(e) == f and len(e.args) == 1 and isinstance(e.args[0], ast.Name) and feeds.get(e.args[0].id) == {ax}:
+            continue
+        bad.append("box component `%s` is not %s over the %s candidates" % (ast.unparse(e)[:40], f, ax))
+    ctx.ob("R08.5", "Arc.bbox[candidates kept iff on the arc, per axis]", n_if >= 2 and not bad, "; ".join(bad), loops[0].lineno,
+           "x candidates feed the x extent, y candidates the y extent, only for parameters on the arc")
+    # the end-point-only shortcut is for arcs of zero extent only
+    n_short = 0
+    for s_ in fn.body[:fn.body.index(loops[0])]:
+        if isinstance(s_, ast.If) and any(isinstance(r, ast.Return) for r in s_.body):
+            n_short += 1
+            ok = _sweep_zero_only(s_.test)
+            ctx.ob("R08.5", "Arc.bbox[end-point box only for zero extent]", ok, ast.unparse(s_.test)[:100], s_.lineno,
+                   "an arc of non-zero extent (a full turn has coincident end points) reaches beyond its end points; only sweep == 0 may skip the extremum candidates")
+    ctx.need(n_short <= 1, "R08.5", "Arc.bbox: more than one early return before the candidate loop")
     theta = ctx.m.cls("Arc").getters.get("theta")
     ok = theta is not None and "as_positive_degrees" in ast.unparse(theta)
     ctx.ob("R08.5", "Arc.theta in [0, 360]", ok, "", theta.lineno if theta is not None else 0, "the interval argument relies on a non-negative start angle")
